@@ -482,3 +482,113 @@ decoder_set_jsgf_string""", """    fsg = jsgf_build_fsg(jsgf, rule, d->lmath, lw
 
 int
 decoder_set_jsgf_string""", "ERRD.J1-refusal")
+
+HM = "src/hmm.c"
+LX = "src/fsg_lextree.c"
+D2 = "src/dict2pid.c"
+# ---- C02 ----------------------------------------------------------------------
+M("C02", "vit: revert 3st fix", HM, """    /* All transitions into state 2 (state 0 is always active) */
+    t2 = INT_MIN; /* Forget any skip transition into the exit state */
+    t0 = s2 + hmm_tprob_3st(2, 2);""", """    /* All transitions into state 2 (state 0 is always active) */
+    t0 = s2 + hmm_tprob_3st(2, 2);""", "VIT.A")
+M("C02", "vit: 5st swapped tp indices", HM, "        t1 = s3 + hmm_tprob_5st(3, 4);\n        t2 = s2 + hmm_tprob_5st(2, 4);\n        if (t0 BETTER_THAN t1) {\n            if (t2 BETTER_THAN t0) {\n                s4 = t2;\n                hmm_history(hmm, 4) = hmm_history(hmm, 2);\n            } else\n                s4 = t0;", "        t1 = s3 + hmm_tprob_5st(4, 3);\n        t2 = s2 + hmm_tprob_5st(2, 4);\n        if (t0 BETTER_THAN t1) {\n            if (t2 BETTER_THAN t0) {\n                s4 = t2;\n                hmm_history(hmm, 4) = hmm_history(hmm, 2);\n            } else\n                s4 = t0;", "VIT.A")
+M("C02", "vit: 5st keeps smaller", HM, """        t2 = s1 + hmm_tprob_5st(1, 3);
+        if (t0 BETTER_THAN t1) {
+            if (t2 BETTER_THAN t0) {""", """        t2 = s1 + hmm_tprob_5st(1, 3);
+        if (t0 BETTER_THAN t1) {
+            if (t2 WORSE_THAN t0) {""", "VIT.B")
+M("C02", "vit: 5st history from loser", HM, """                s3 = t1;
+                hmm_history(hmm, 3) = hmm_history(hmm, 2);
+            }
+        }
+        if (s3 WORSE_THAN WORST_SCORE)""", """                s3 = t1;
+                hmm_history(hmm, 3) = hmm_history(hmm, 1);
+            }
+        }
+        if (s3 WORSE_THAN WORST_SCORE)""", "VIT.H")
+M("C02", "vit: 5st reordered update reads fresh value", HM, """    /* All transitions into state 1 */
+    t0 = s1 + hmm_tprob_5st(1, 1);
+    t1 = s0 + hmm_tprob_5st(0, 1);
+    if (t0 BETTER_THAN t1) {
+        s1 = t0;
+    } else {
+        s1 = t1;
+        hmm_history(hmm, 1) = hmm_in_history(hmm);
+    }
+    if (s1 WORSE_THAN WORST_SCORE)
+        s1 = WORST_SCORE;
+    if (s1 BETTER_THAN bestScore)
+        bestScore = s1;
+    hmm_score(hmm, 1) = s1;
+
+    /* All transitions into state 0 */
+    s0 = s0 + hmm_tprob_5st(0, 0);""", """    /* All transitions into state 1 */
+    t0 = s1 + hmm_tprob_5st(1, 1);
+    t1 = s2 + hmm_tprob_5st(0, 1);
+    if (t0 BETTER_THAN t1) {
+        s1 = t0;
+    } else {
+        s1 = t1;
+        hmm_history(hmm, 1) = hmm_in_history(hmm);
+    }
+    if (s1 WORSE_THAN WORST_SCORE)
+        s1 = WORST_SCORE;
+    if (s1 BETTER_THAN bestScore)
+        bestScore = s1;
+    hmm_score(hmm, 1) = s1;
+
+    /* All transitions into state 0 */
+    s0 = s0 + hmm_tprob_5st(0, 0);""", "VIT.C")
+M("C02", "vit: mpx ssid not co-assigned", HM, """            s3 = t1;
+            hmm_history(hmm, 3) = hmm_history(hmm, 2);
+            ssid[3] = ssid[2];""", """            s3 = t1;
+            hmm_history(hmm, 3) = hmm_history(hmm, 2);""", "VIT.H")
+M("C02", "vit: 3st clamp dropped", HM, """    if (s1 WORSE_THAN WORST_SCORE)
+        s1 = WORST_SCORE;
+    if (s1 BETTER_THAN bestScore)
+        bestScore = s1;
+    hmm_score(hmm, 1) = s1;
+
+    /* All transitions into state 0 */
+    s0 = s0 + hmm_tprob_3st(0, 0);""", """    if (s1 BETTER_THAN bestScore)
+        bestScore = s1;
+    hmm_score(hmm, 1) = s1;
+
+    /* All transitions into state 0 */
+    s0 = s0 + hmm_tprob_3st(0, 0);""", "VIT.W")
+M("C02", "vit: dispatcher 3st uses 5st", HM, "        else if (hmm_n_emit_state(hmm) == 3)\n            return hmm_vit_eval_3st_lr(hmm);", "        else if (hmm_n_emit_state(hmm) == 3)\n            return hmm_vit_eval_5st_lr(hmm);", "VIT.G")
+M("C02", "vit: anytopo tests other transition", HM, "if ((hmm_tprob(hmm, from, to) BETTER_THAN TMAT_WORST_SCORE) && ((newscr = ctx->st_sen_scr[from] + hmm_tprob(hmm, from, to)) BETTER_THAN scr)) {\n                scr = newscr;\n                bestfrom = from;\n            }\n        }\n\n        /* Update new result for state to */", "if ((hmm_tprob(hmm, to, from) BETTER_THAN TMAT_WORST_SCORE) && ((newscr = ctx->st_sen_scr[from] + hmm_tprob(hmm, from, to)) BETTER_THAN scr)) {\n                scr = newscr;\n                bestfrom = from;\n            }\n        }\n\n        /* Update new result for state to */", "VIT.G")
+M("C02", "lextree: revert root scan fix", LX, """                    pnode = NULL;
+                    for (j = 0; j < n_ci && ssid_pnode_map[j] != NULL; ++j) {
+                        if (hmm_nonmpx_ssid(&ssid_pnode_map[j]->hmm) == ssid) {
+                            pnode = ssid_pnode_map[j];
+                            break;
+                        }
+                    }""", """                    pnode = ssid_pnode_map[0];
+                    for (j = 0; j < n_ci && ssid_pnode_map[j] != NULL; ++j) {
+                        pnode = ssid_pnode_map[j];
+                        if (hmm_nonmpx_ssid(&pnode->hmm) == ssid)
+                            break;
+                    }""", "CTX.model")
+M("C02", "lextree: single-phone share test dropped", LX, """                    if (hmm_nonmpx_ssid(&pnode->hmm) == ssid) {
+                        /* already allocated; share it for this context phone */
+                        fsg_pnode_add_ctxt(pnode, lc);
+                        break;
+                    }""", """                    if (hmm_nonmpx_ssid(&pnode->hmm) >= 0) {
+                        /* already allocated; share it for this context phone */
+                        fsg_pnode_add_ctxt(pnode, lc);
+                        break;
+                    }""", "CTX.model")
+M("C02", "lextree: leaf map keyed by rc", LX, "                        ssid_pnode_map[j] = pnode;\n                    } else {", "                        ssid_pnode_map[rc] = pnode;\n                    } else {", "CTX.model")
+M("C02", "lextree: root ssid looked up with wrong roles", LX, "                    ssid = dict2pid_ldiph_lc(lextree->d2p, ci, rc, lc);", "                    ssid = dict2pid_ldiph_lc(lextree->d2p, ci, lc, rc);", "CTX.lookup")
+M("C02", "lextree: rc list of from_state", LX, "                                  lextree->rc[dst],", "                                  lextree->rc[from_state],", "CTX.lookup")
+M("C02", "lextree: wip in internal node", LX, "                pnode->logs2prob = lextree->pip;\n                pnode->ci_ext = dict_pron(lextree->dict, dictwid, p);\n                pnode->ppos = p;\n                pnode->leaf = FALSE;", "                pnode->logs2prob = lextree->pip + lextree->wip;\n                pnode->ci_ext = dict_pron(lextree->dict, dictwid, p);\n                pnode->ppos = p;\n                pnode->leaf = FALSE;", "ONCE.penalties")
+M("C02", "lextree: leaf forgets arc prob", LX, "                        pnode->logs2prob = (fsg_link_logs2prob(fsglink) >> SENSCR_SHIFT)\n                            + lextree->pip;", "                        pnode->logs2prob = lextree->pip;", "ONCE.penalties")
+M("C02", "search: child prob added twice", FS, "        newscore = hmm_out_score(hmm) + child->logs2prob;", "        newscore = hmm_out_score(hmm) + child->logs2prob + pnode->logs2prob;", "ONCE.penalties")
+M("C02", "d2p: add_word swaps l/r (seed C02-2)", D2, "                                                dict_first_phone(d, wid), l,\n                                                dict_second_phone(d, wid),\n                                                WORD_POSN_BEGIN);", "                                                dict_first_phone(d, wid),\n                                                dict_second_phone(d, wid), l,\n                                                WORD_POSN_BEGIN);", "ROLE.context-tables")
+M("C02", "d2p: build rdiph uses BEGIN", D2, "                                                  (s3cipid_t)l, (s3cipid_t)r,\n                                                  WORD_POSN_END);", "                                                  (s3cipid_t)l, (s3cipid_t)r,\n                                                  WORD_POSN_BEGIN);", "ROLE.context-tables")
+M("C02", "d2p: guard tests other cell (seed C16-2)", D2, "        if (d2p->rssid[dict_last_phone(d, wid)][dict_second_last_phone(d, wid)].n_ssid\n            == 0) {", "        if (d2p->rssid[dict_last_phone(d, wid)][dict_second_phone(d, wid)].n_ssid\n            == 0) {", "ROLE.context-tables")
+M("C02", "history: insert ascending", FH, "        if (score BETTER_THAN entry->score)\n            break; /* Found where to insert new entry */", "        if (score WORSE_THAN entry->score)\n            break; /* Found where to insert new entry */", "ORDER.best-of")
+M("C02", "ctxt_sub: word 1 masked with word 0 (seed C02-1)", "include/soundswallower/fsg_lextree.h", "((src)->bv[1] = (~((sub)->bv[1]) & (src)->bv[1])) | ((src)->bv[2]", "((src)->bv[1] = (~((sub)->bv[0]) & (src)->bv[1])) | ((src)->bv[2]", "ORDER.best-of")
+M("C02", "hmm_eval: bestscore min", FS, "        if (score BETTER_THAN bestscore)\n            bestscore = score;", "        if (score WORSE_THAN bestscore)\n            bestscore = score;", "ORDER.best-of")
+M("C02", "benign: 5st temp renamed & reordered", HM, "        t0 = s4 + hmm_tprob_5st(4, 4);\n        t1 = s3 + hmm_tprob_5st(3, 4);\n        t2 = s2 + hmm_tprob_5st(2, 4);", "        t2 = s2 + hmm_tprob_5st(2, 4);\n        t1 = hmm_tprob_5st(3, 4) + s3;\n        t0 = s4 + hmm_tprob_5st(4, 4);", kind="benign")
